@@ -3,6 +3,7 @@ package props
 import (
 	"errors"
 	"fmt"
+	"io"
 	"strings"
 	"testing"
 
@@ -30,7 +31,7 @@ func config(i int) printer.Config {
 	}
 	if bit(1) {
 		// bits 8 and up select another width
-		c.Width = []int{2, 1, 4, 8, 16, 33, -1}[(i>>8)%7]
+		c.Width = []int{2, 1, 4, 8, 16, 33, -1}[((i>>8)&7)%7]
 	}
 	if bit(2) {
 		c.Redir = printer.Before
@@ -51,6 +52,17 @@ func config(i int) printer.Config {
 	c.Case = bit(6)
 	if bit(7) {
 		c.Then = printer.Newline
+	}
+	// bits 11-13: leave the fields whose documented default was chosen at
+	// their zero value instead of naming the default
+	if bit(11) && c.Indent == printer.Tab {
+		c.Indent = 0
+	}
+	if bit(12) {
+		c.Redir &^= printer.After
+	}
+	if bit(13) && c.Assign == printer.Before {
+		c.Assign = 0
 	}
 	return c
 }
@@ -124,6 +136,23 @@ func (w *failWriter) Write(p []byte) (int, error) {
 // bufio hands large strings to it directly.
 func (w *failWriter) WriteString(s string) (int, error) { return w.Write([]byte(s)) }
 
+// richWriter is a failing writer with the whole method set of a buffered
+// writer (as *bytes.Buffer or *bufio.Writer have it): whoever uses those
+// methods directly has to look at their errors as well.
+type richWriter struct{ failWriter }
+
+func (w *richWriter) WriteByte(c byte) error {
+	_, err := w.Write([]byte{c})
+	return err
+}
+
+func (w *richWriter) WriteRune(r rune) (int, error) { return w.Write([]byte(string(r))) }
+
+// plainWriter has Write only.
+type plainWriter struct{ w *failWriter }
+
+func (p plainWriter) Write(b []byte) (int, error) { return p.w.Write(b) }
+
 var errWriter = errors.New("injected writer failure")
 
 type c18Case struct {
@@ -167,7 +196,13 @@ func checkC18(c c18Case) (faults int, err error) {
 	}
 	cfg := config(c.Cfg)
 	for k := 0; k < len(t1); k += step {
-		w := &failWriter{n: k, err: errWriter}
+		var w io.Writer = &failWriter{n: k, err: errWriter}
+		switch k % 3 {
+		case 1:
+			w = &richWriter{failWriter{n: k, err: errWriter}}
+		case 2:
+			w = plainWriter{&failWriter{n: k, err: errWriter}}
+		}
 		var werr error
 		if e := guard(func() error { werr = cfg.Fprint(w, p); return nil }); e != nil {
 			return faults, fmt.Errorf("Fprint with a writer failing after %d bytes: %v\nsrc: %q", k, e, c.Src)
@@ -334,6 +369,7 @@ func TestC05(t *testing.T) {
 		for wsel := 1; wsel < 7; wsel++ {
 			// other indentation widths, on a space-indenting configuration
 			run(t, p, src, (i*8+wsel*37)%256|3|wsel<<8, false)
+			run(t, p, src, (i*8+wsel*37)%256|wsel<<11, false) // zero-valued fields
 		}
 		if i%53 == 0 {
 			st.Sample(map[string]any{"src": src, "configs": "all 256"})
@@ -343,7 +379,7 @@ func TestC05(t *testing.T) {
 	if sh == 0 {
 		for di, src := range deepSources() {
 			for cfg := 0; cfg < 256; cfg += 5 {
-				run(t, &gen.Program{Feat: map[string]int{"kind:group": 19}}, src, (cfg+di)%256|(cfg%7)<<8, false)
+				run(t, &gen.Program{Feat: map[string]int{"kind:group": 19}}, src, (cfg+di)%256|(cfg%7)<<8|(cfg%8)<<11, false)
 			}
 			st.Class("deeply_nested_program")
 		}
@@ -368,8 +404,9 @@ func TestC05(t *testing.T) {
 		src := gen.Render(p.Stream, lay).Src
 		base := rapid.IntRange(0, 255).Draw(rt, "config")
 		wsel := rapid.SampledFrom([]int{0, 0, 0, 1, 2, 3, 4, 5, 6}).Draw(rt, "width")
+		zsel := rapid.SampledFrom([]int{0, 0, 1, 2, 4, 7, 3}).Draw(rt, "zero")
 		for k := 0; k < 16; k++ {
-			run(rt, p, src, (base+k*37)%256|wsel<<8, true)
+			run(rt, p, src, (base+k*37)%256|wsel<<8|zsel<<11, true)
 		}
 		featStats(st, p)
 		st.Sample(map[string]any{"src": src, "first_config": base})
@@ -416,7 +453,7 @@ func TestC18(t *testing.T) {
 			return
 		}
 		for cfg := 0; cfg < 256; cfg += 3 {
-			run(t, p, src, (cfg+i)%256|(cfg%7)<<8, false)
+			run(t, p, src, (cfg+i)%256|(cfg%7)<<8|(cfg%8)<<11, false)
 		}
 		if i%53 == 0 {
 			st.Sample(map[string]any{"src": src, "configs": "every third of 256"})
@@ -426,7 +463,7 @@ func TestC18(t *testing.T) {
 	if sh == 0 {
 		for di, src := range deepSources() {
 			for cfg := 0; cfg < 256; cfg += 17 {
-				run(t, &gen.Program{Feat: map[string]int{"kind:group": 19}}, src, (cfg+di)%256|(cfg%7)<<8, false)
+				run(t, &gen.Program{Feat: map[string]int{"kind:group": 19}}, src, (cfg+di)%256|(cfg%7)<<8|(cfg%8)<<11, false)
 			}
 			st.Class("deeply_nested_program")
 		}
@@ -455,8 +492,9 @@ func TestC18(t *testing.T) {
 		}
 		base := rapid.IntRange(0, 255).Draw(rt, "config")
 		wsel := rapid.SampledFrom([]int{0, 0, 0, 1, 2, 3, 4, 5, 6}).Draw(rt, "width")
+		zsel := rapid.SampledFrom([]int{0, 0, 1, 2, 4, 7, 3}).Draw(rt, "zero")
 		for k := 0; k < 8; k++ {
-			run(rt, p, src, (base+k*37)%256|wsel<<8, true)
+			run(rt, p, src, (base+k*37)%256|wsel<<8|zsel<<11, true)
 		}
 		featStats(st, p)
 		st.Sample(map[string]any{"src": src, "first_config": base})
